@@ -167,12 +167,13 @@ class Expect(object):
 
 
 _uniq_re = re.compile(rb":\d+\.\d+")
+_pid_re = re.compile(rb"pid=\d+")
 
 
 def rename(value, table):
     """Replace every unique name occurring anywhere inside value (bytes, nested lists) by table[name]."""
     if isinstance(value, bytes):
-        return _uniq_re.sub(lambda m: table.get(m.group(0), m.group(0)), value)
+        return _pid_re.sub(b"pid=N", _uniq_re.sub(lambda m: table.get(m.group(0), m.group(0)), value))
     if isinstance(value, (list, tuple)):
         return tuple(rename(v, table) for v in value)
     if isinstance(value, (int, float, str, bool)) or value is None:
